@@ -6,7 +6,7 @@ import ast
 from fractions import Fraction
 
 from ..absval import Obj, Sym, Unknown, enumerate_paths
-from ..model import AnchorMissing, Func, Undecided, norm
+from ..model import AnchorMissing, Func, Undecided, norm, walk_no_nested
 from ..poly import Poly, Rat
 from ..report import Ctx
 from ..variants import Variant
@@ -260,7 +260,22 @@ def check_selection(ctx: Ctx):
         w = rec["kernel"]
         if w is None:
             continue
+        # ... and whose result is what the wrapper returns (a helper that only prepares the two masks is not the core)
+        returned = set()
+        ret_names = set()
+        for st in walk_no_nested(w.node):
+            if isinstance(st, ast.Return) and st.value is not None:
+                for x in ast.walk(st.value):
+                    returned.add(id(x))
+                    if isinstance(x, ast.Name):
+                        ret_names.add(x.id)
+        for st in walk_no_nested(w.node):
+            if isinstance(st, ast.Assign) and len(st.targets) == 1 and isinstance(st.targets[0], ast.Name) and st.targets[0].id in ret_names:
+                for x in ast.walk(st.value):
+                    returned.add(id(x))
         for c in prog.calls_in(w):
+            if id(c) not in returned:
+                continue
             for h in prog.resolve_call(w, c):
                 if isinstance(h, Func) and h is not w and h.module.rel.startswith("metrics"):
                     pn = [p.name.lower() for p in h.call_params]
